@@ -8,6 +8,8 @@
 -/
 import GV.Proofs.SliceAppendSlice
 import GV.Proofs.HeapSim
+import GV.Proofs.PtrAlias
+import GV.Proofs.PtrInPlace
 
 namespace GV.Props.C07
 open GV.Slice GV.Spec.Slice
@@ -165,6 +167,52 @@ example : ∀ s ∈ ([.decl (.struct [.int, .array 2 (.struct [.int, .ptr .int])
   simp only [List.mem_cons, List.not_mem_nil, or_false] at hs
   rcases hs with rfl | rfl | rfl | rfl | rfl | rfl | rfl | rfl | rfl | rfl | rfl | rfl <;>
     simp [wfStmt, Ctx.kind, Expr.var]
+
+/-! ## Pointers (model GV.Model.Ptr: pointer objects = cached `$get/$set` pairs closed over a cell; pointers to
+    array/struct storage = the object itself) -/
+open GV.Ptr
+
+/-- **pointer identity** `&x == &x`: taking the address of the same variable / field / element / package variable
+    again yields the SAME pointer object (the `$ptr`, `$ptr_f`, `$indexPtr` caches) and allocates nothing -/
+theorem ptr_identity (P : PHeap) (t : Target) :
+    addrCell (addrCell P t).1 t = ((addrCell P t).1, (addrCell P t).2) ∧
+    targetOf (addrCell P t).1 (addrCell P t).2 = some t :=
+  ⟨addrCell_again P t, addrCell_target P t⟩
+
+/-- Go's `p == q` (JS `===` on pointer objects) holds iff both point at the same cell; the invariant behind it
+    (one pointer object per cell) is preserved by taking addresses and by stores -/
+theorem ptr_eq_iff (P : PHeap) (hwf : P.wf) (p q : Nat) (t u : Target)
+    (hp : targetOf P p = some t) (hq : targetOf P q = some u) : p = q ↔ t = u :=
+  GV.Ptr.ptr_eq_iff P hwf p q t u hp hq
+
+theorem ptr_wf_preserved (P : PHeap) (hwf : P.wf) (t : Target) (p : Nat) (v : Int) :
+    (addrCell P t).1.wf ∧ (store P p v).wf ∧
+    (∀ q u, targetOf P q = some u → targetOf (addrCell P t).1 q = some u) ∧
+    (∀ q, targetOf (store P p v) q = targetOf P q) :=
+  ⟨addrCell_wf P t hwf, store_wf P p v hwf, fun q u h => addrCell_mono P t u q h, fun q => store_targets P p v q⟩
+
+/-- **alias_semantics**: a write through ANY pointer to a cell is observed through EVERY pointer to the same cell and by
+    the variable / field / element / package variable itself; pointers to other cells and all other cells are
+    unaffected; a direct assignment to the cell is observed through every pointer to it. -/
+theorem alias_semantics (P : PHeap) (p q : Nat) (t : Target) (v : Int)
+    (hp : targetOf P p = some t) (hq : targetOf P q = some t) :
+    load (store P p v) q = some v ∧ (store P p v).heap.cell t.obj t.slot = v ∧
+    (∀ r u, targetOf P r = some u → u ≠ t → load (store P p v) r = load P r) ∧
+    (∀ o s, (o, s) ≠ (t.obj, t.slot) → (store P p v).heap.cell o s = P.heap.cell o s) ∧
+    load (assignCell P t v) q = some v :=
+  ⟨(store_observed P p q t v hp hq).1, (store_observed P p q t v hp hq).2,
+   fun r u hr hne => (store_frame P p r t u v hp hr hne).1,
+   store_cells P p t v hp,
+   assign_observed P q t v hq⟩
+
+/-- an in-place assignment `x = y` of array/struct type keeps every pointer into `x` attached: `x` keeps its objects
+    (pointers to `x` and to its array/struct components are those objects) and every leaf cell `x.path` — the target
+    of a field / element pointer object — then holds `y.path`. -/
+theorem inplace_assignment_keeps_pointers (t : Ty) (ht : isSpine t = true) (H : Heap) (d s : Int)
+    (hnd : (spine t H d).Nodup) (hdj : ∀ x ∈ spine t H d, x ∉ spine t H s)
+    (p : List Nat) (lt : Ty) (hp : typeAt t p = some lt) (hl : isSpine lt = false) :
+    navigate (copyInto t H d s) d p = navigate H s p ∧ spine t (copyInto t H d s) d = spine t H d :=
+  inplace_leaf_value t ht H d s hnd hdj p lt hp hl
 
 /-! ## Repaired defects (theorems about the code BEFORE the fix: commits C07-*) -/
 
